@@ -160,6 +160,10 @@ func (s *JavaRefactorListener) EnterPrimary(ctx *PrimaryContext) {
 }
 
 func (s *JavaRefactorListener) EnterMethodCall(ctx *MethodCallContext) {
+	// this(...) and super(...) have no identifier
+	if ctx.Identifier() == nil {
+		return
+	}
 	text := ctx.Identifier().GetText()
 	startLine := ctx.GetStart().GetLine()
 	stopLine := ctx.GetStop().GetLine()
